@@ -129,45 +129,62 @@ pub async fn search(cx: &mut Context<'_>, command: &SearchCommand) -> Result<Ans
             )
         })?;
         // Over-fetch: the filters below are applied after scoring, so the
-        // window has to be wide enough to survive them.
-        for (seq, score) in index.search_advanced(&term, (limit + offset).saturating_mul(4), None) {
-            if score < threshold as f32 {
-                continue;
+        // window has to be wide enough to survive them. It is widened until it
+        // does, or the index has nothing more: hits the caller may not read
+        // must not crowd the ones it may out of the page (the page would
+        // differ from the one a Space without the hidden elements gives, and
+        // its emptiness would count them).
+        let wanted = limit + offset;
+        let mut window = wanted.saturating_mul(4).max(1);
+        let mut kind_hits: Vec<(f32, Json)> = Vec::new();
+        loop {
+            let raw = index.search_advanced(&term, window, None);
+            let exhausted = raw.len() < window;
+            kind_hits.clear();
+            for (seq, score) in raw {
+                if score < threshold as f32 {
+                    continue;
+                }
+                let id = ElementId::new(kind, seq);
+                let Some(element) = cx.load(id).await? else {
+                    continue;
+                };
+                if element.space() != cx.space || !element.is_active() {
+                    continue;
+                }
+                // The redacted view `load` cached, not a fresh render: a search
+                // snippet is a read, and a mask that hid a field from FIND must
+                // hide it from SEARCH too (§105).
+                let rendered = cx.view_of(id);
+                if let Some(expected) = &with_type
+                    && rendered["schema_ref"].as_str() != Some(expected.as_str())
+                {
+                    continue;
+                }
+                if let Some(expected) = &with_predicate
+                    && rendered["predicate_ref"].as_str() != Some(expected.as_str())
+                {
+                    continue;
+                }
+                kind_hits.push((
+                    score,
+                    serde_json::json!({
+                        "id": id.to_string(),
+                        "kind": kind.to_string(),
+                        // Named `score`, never `confidence`: copying this into an
+                        // Assertion would invent an epistemic commitment out of a
+                        // text match.
+                        "score": score,
+                        "element": rendered.as_ref(),
+                    }),
+                ));
             }
-            let id = ElementId::new(kind, seq);
-            let Some(element) = cx.load(id).await? else {
-                continue;
-            };
-            if element.space() != cx.space || !element.is_active() {
-                continue;
+            if exhausted || kind_hits.len() >= wanted {
+                break;
             }
-            // The redacted view `load` cached, not a fresh render: a search
-            // snippet is a read, and a mask that hid a field from FIND must
-            // hide it from SEARCH too (§105).
-            let rendered = cx.view_of(id);
-            if let Some(expected) = &with_type
-                && rendered["schema_ref"].as_str() != Some(expected.as_str())
-            {
-                continue;
-            }
-            if let Some(expected) = &with_predicate
-                && rendered["predicate_ref"].as_str() != Some(expected.as_str())
-            {
-                continue;
-            }
-            hits.push((
-                score,
-                serde_json::json!({
-                    "id": id.to_string(),
-                    "kind": kind.to_string(),
-                    // Named `score`, never `confidence`: copying this into an
-                    // Assertion would invent an epistemic commitment out of a
-                    // text match.
-                    "score": score,
-                    "element": rendered.as_ref(),
-                }),
-            ));
+            window = window.saturating_mul(2);
         }
+        hits.append(&mut kind_hits);
     }
     hits.sort_by(|a, b| b.0.partial_cmp(&a.0).unwrap_or(std::cmp::Ordering::Equal));
 
